@@ -20,6 +20,8 @@ type thread struct {
 	desc    string
 	done    bool
 	name    string
+	proc    int  // process tag (verifrt.SetProcess), inherited by spawned goroutines
+	killed  bool // its process was killed (verifrt.KillProcess): never scheduled again
 }
 
 type timer struct {
@@ -31,6 +33,7 @@ type timer struct {
 	fires    int
 	stopped  bool
 	seq      int
+	proc     int // process tag of the goroutine that armed it
 }
 
 type scheduler struct {
@@ -54,6 +57,9 @@ type scheduler struct {
 
 func (s *scheduler) addTimer(t *timer) {
 	t.born = s.now
+	if s.cur != nil {
+		t.proc = s.cur.proc
+	}
 	s.timers = append(s.timers, t)
 }
 
@@ -101,11 +107,11 @@ func newScheduler() *scheduler {
 func (s *scheduler) enabled() []*thread {
 	var out []*thread
 	// current thread first so that choice 0 == "keep running"
-	if s.cur != nil && !s.cur.done && (s.cur.blocked == nil || s.cur.blocked()) {
+	if s.cur != nil && !s.cur.done && !s.cur.killed && (s.cur.blocked == nil || s.cur.blocked()) {
 		out = append(out, s.cur)
 	}
 	for _, t := range s.threads {
-		if t == s.cur || t.done {
+		if t == s.cur || t.done || t.killed {
 			continue
 		}
 		if t.blocked == nil || t.blocked() {
@@ -172,7 +178,7 @@ func (s *scheduler) hasPendingTimer() bool {
 func (s *scheduler) describeBlocked() string {
 	var parts []string
 	for _, t := range s.threads {
-		if !t.done && t.blocked != nil {
+		if !t.done && !t.killed && t.blocked != nil {
 			parts = append(parts, fmt.Sprintf("g%d(%s): %s", t.id, t.name, t.desc))
 		}
 	}
@@ -271,6 +277,9 @@ func (s *scheduler) waitUntil(pred func() bool, desc string) {
 // spawn starts a new interpreted goroutine running body.
 func (s *scheduler) spawn(name string, body func()) *thread {
 	t := &thread{id: len(s.threads), wake: make(chan struct{}, 1), name: name}
+	if s.cur != nil {
+		t.proc = s.cur.proc
+	}
 	s.threads = append(s.threads, t)
 	s.wg.Add(1)
 	go func() {
@@ -725,4 +734,20 @@ func wgOf(p *value) *wgState {
 	st := &wgState{}
 	syncStates[p] = st
 	return st
+}
+
+// killProcess: every goroutine tagged proc stops for good (the process died);
+// its timers never fire again. A killed goroutine that is running (the caller,
+// inside a hook) keeps the baton until it blocks.
+func (s *scheduler) killProcess(proc int) {
+	for _, t := range s.threads {
+		if t.proc == proc && !t.done {
+			t.killed = true
+		}
+	}
+	for _, t := range s.timers {
+		if t.proc == proc {
+			t.stopped = true
+		}
+	}
 }
